@@ -21,6 +21,10 @@ def cells(tier, seed):
                             continue
                         out.append({"id": f"n{n}-{kind}/it{max_iter}/b{'x'.join(map(str, batch)) or '-'}/v{nvec}/{init}",
                                     "params": {"n": n, "kind": kind, "max_iter": max_iter, "batch": list(batch), "nvec": nvec, "init": init}})
+    for order in ("near,generic", "generic,near"):
+        out.append({"id": f"near_breakdown/n3const/{order}", "params": {"group": "near_breakdown", "n": 3, "order": order}})
+    for sign in ("pos", "neg", "small"):
+        out.append({"id": f"to_diag/k2/{sign}", "params": {"group": "to_diag", "sign": sign}})
     return out
 
 
@@ -41,6 +45,10 @@ def describe(tier):
 
 def harness(ctx):
     p = ctx.params
+    if p.get("group") == "near_breakdown":
+        return near_breakdown(ctx, p)
+    if p.get("group") == "to_diag":
+        return to_diag(ctx, p)
     n, batch, nvec = p["n"], tuple(p["batch"]), p["nvec"]
     if p["kind"] == "full":
         L = ctx.leaf("L", batch + (n, n), tril=True, posdiag=True)
@@ -79,3 +87,64 @@ def harness(ctx):
         if k == n:
             ctx.eq(Q @ Tm @ Q.mT, Ab.expand_as(Q @ Tm @ Q.mT), "Q T Q^T = A at full Krylov dimension")
     attempt(ctx, "lanczos", chk)
+
+
+def near_breakdown(ctx, p):
+    """two start vectors; one of them almost lies in a 2-dimensional invariant subspace (its second Lanczos beta is ~1e-8, below
+    the 1e-6 stopping threshold, but not zero), the other is generic: the recurrence must go on for the generic one"""
+    n = 3
+    A = torch.diag_embed(torch.tensor([1.0, 2.0, 4.0], dtype=torch.float64))
+    near = torch.tensor([[1.0], [1.0], [2.0 ** -27]], dtype=torch.float64)
+    gen = ctx.leaf("init", (n, 1))
+    init = torch.cat([near, gen], -1) if p["order"] == "near,generic" else torch.cat([gen, near], -1)
+    jg = 1 if p["order"] == "near,generic" else 0
+
+    def chk():
+        Q, Tm = lanczos_tridiag(lambda z: A @ z, n, dtype=torch.float64, device=torch.device("cpu"), matrix_shape=torch.Size((n, n)),
+                                batch_shape=torch.Size(()), init_vecs=init)
+        k = Tm.shape[-1]
+        if tuple(Q.shape) != (2, n, k) or tuple(Tm.shape) != (2, k, k):
+            ctx.fail("shapes", f"Q {tuple(Q.shape)} T {tuple(Tm.shape)}")
+            return
+        Qg, Tg = Q[jg], Tm[jg]
+        ctx.eq(Qg.mT @ Qg, torch.eye(k, dtype=torch.float64), "generic vector: Q^T Q = I")
+        ctx.eq(Qg.mT @ (A @ Qg), Tg, "generic vector: Q^T A Q = T")
+        if k < n:
+            # stopped early: legitimate only if EVERY start vector has exhausted its Krylov space (|beta| <= 1e-6)
+            Rm = A @ Qg - Qg @ Tg
+            beta = (Rm[:, -1] * Rm[:, -1]).sum().sqrt()
+            ctx.true((beta <= 1e-6).reshape(1), "early termination only when every start vector has broken down (generic vector's beta <= 1e-6)")
+        else:
+            ctx.eq(Qg @ Tg @ Qg.mT, A, "generic vector: Q T Q^T = A at full Krylov dimension")
+    attempt(ctx, "near_breakdown", chk)
+
+
+def to_diag(ctx, p):
+    """lanczos_tridiag_to_diag: eigen-decomposition of T with negative Ritz values masked (value 1, vector 0)"""
+    from linear_operator.utils.lanczos import lanczos_tridiag_to_diag
+
+    Qr = ctx.rotation2("TQ")
+    if p["sign"] == "pos":
+        w = ctx.leaf("Tw", (2,), lo=0.125, hi=64, ascending=True)
+    elif p["sign"] == "small":
+        # a strictly positive but relatively tiny Ritz value is still a Ritz value
+        w0 = ctx.leaf("Tw0", (1,), lo=2.0 ** -40, hi=2.0 ** -10)
+        w1 = ctx.leaf("Tw1", (1,), lo=1.0, hi=64)
+        w = torch.cat([w0, w1])
+    else:
+        w0 = ctx.leaf("Tw0", (1,), lo=-64, hi=-0.125)
+        w1 = ctx.leaf("Tw1", (1,), lo=0.125, hi=64)
+        w = torch.cat([w0, w1])
+    Tm = Qr @ torch.diag_embed(w) @ Qr.mT
+    ctx.register_eigh(Tm, w, Qr)
+
+    def chk():
+        ev, V = lanczos_tridiag_to_diag(Tm.clone())
+        if p["sign"] in ("pos", "small"):
+            ctx.eq(ev, w, "positive Ritz values are returned unchanged")
+            ctx.eq(V @ torch.diag_embed(ev) @ V.mT, Tm, "V diag(evals) V^T = T for a positive definite T")
+            ctx.eq(V.mT @ V, torch.eye(2, dtype=torch.float64), "V orthonormal")
+        else:
+            ctx.eq(ev, torch.cat([torch.ones(1, dtype=torch.float64), w1]), "negative Ritz value replaced by 1, positive one unchanged")
+            ctx.eq(V @ torch.diag_embed(ev) @ V.mT, w1 * (Qr[:, 1:] @ Qr[:, 1:].mT), "V diag(evals) V^T = positive part of T")
+    attempt(ctx, "to_diag", chk)
